@@ -39,6 +39,9 @@ Core-only executable model. It mirrors the code that exists (oddities included):
 * will commands (WILL_LOCK / WILL_UNLOCK frames, text `… WILL 1`) are queued on the connection whatever the role; when a
   connection that has a wrapper closes, `Transparency*ServerProtocol.Close` writes them to the leader over the link
   `CheckClient` yields — and drops them when there is none (also on a node that has meanwhile become the leader).
+  While it writes, the link's reader relays the leader's answers (to the re-sent INIT, to the first wills) to the client
+  that has gone; the second such write fails and the reader closes the link: the wills not written by then are lost
+  (`Event.closeCut c k`).
 * link loss (`rollbackLatestCommand`): a RESULT_ERROR result is fabricated for the LATEST in-flight command only (a
   `LockResultCommand` with every other field zero for LOCK / UNLOCK / INIT, a `CallResultCommand` for CALL) and pushed
   through the same relay function; earlier in-flight commands get nothing. The link object then reconnects on its own
@@ -547,14 +550,17 @@ def stepLeader (s : Node) (a : Addr) : Node × Out :=
 
 /-! ### the rest -/
 
-def stepClose (s : Node) (c : Nat) : Node × Out :=
+def stepClose (s : Node) (c : Nat) (cut : Option Nat := none) : Node × Out :=
   match s.conns[c]? with
   | none => (s, { tag := .ign })
   | some x =>
     if x.closed then (s, { tag := .ign })
     else if x.awaiting.isSome then ({ s with conns := s.conns.set c { x with half := true } }, { tag := .deferred })
     else
-      let fw := closeFwd s x
+      -- `cut`: while `Close` is still writing, the link's reader relays the leader's first answers to the client that has
+      -- gone; the second such write fails, `processBinaryProcotol` returns the error, `Process` returns and CLOSES the link —
+      -- the remaining will commands find "client not open" and are lost. `cut = some k`: only the first k frames went out.
+      let fw := match cut with | none => closeFwd s x | some k => (closeFwd s x).take k
       ({ s with conns := s.conns.set c { x with closed := true, link := none } },
        { tag := if fw = [] then .ok else .down, fwd := fw.map (fun f => (c, f)) })
 
@@ -570,6 +576,9 @@ inductive Event where
   | role (r : Role)
   | leader (a : Addr)
   | close (c : Nat)
+  /-- the client closes connection `c`, and the link's own reader closes the link after `k` of the frames
+  `Transparency*ServerProtocol.Close` has to write (INIT, will commands) have gone out: the rest is lost -/
+  | closeCut (c : Nat) (k : Nat)
   deriving DecidableEq, Repr
 
 def step (s : Node) : Event → Node × Out
@@ -581,6 +590,7 @@ def step (s : Node) : Event → Node × Out
   | .role r => ({ s with role := r }, { tag := .ok })
   | .leader a => stepLeader s a
   | .close c => stepClose s c
+  | .closeCut c k => stepClose s c (some k)
 
 def runFrom (s : Node) (evs : List Event) : Node := evs.foldl (fun s e => (step s e).1) s
 
